@@ -8,7 +8,7 @@ from vlib import fexpr
 
 from . import corecommon as cc
 
-PROPS = ["MxlVerif.Props.C13"]
+PROPS = ["MxlVerif.Props.C13", "MxlVerif.Props.C13Main"]
 
 
 def setup(ctx):
